@@ -218,6 +218,7 @@ var mutantCatalogue = map[string][]mutant{
 		{Name: "L3 dirty flag keyed by the L1 alignment", File: "proc/mvp8-0/cc.go", Old: "\tl3Addr := getL3AlignedMemoryAddress([]int32{int32(l1Addr)})\n\tcc.msi.l3WriteNotify(l3Addr)", New: "\tl3Addr := getL1AlignedMemoryAddress([]int32{int32(l1Addr)})\n\tcc.msi.l3WriteNotify(l3Addr)"},
 	},
 	"C06": {
+		{Name: "L3 line lock keyed at the L1 line size", File: "proc/mvp8-0/msi.go", Old: "\taddr := getL3AlignedMemoryAddress(addrs)\n", New: "\taddr := getL1AlignedMemoryAddress(addrs)\n"},
 		{Name: "L1 insertion guarded by an L3 presence test", File: "proc/mvp8-0/cc.go", Old: "if cc.isAddressInL1([]int32{int32(addr)}) {", New: "if cc.isAddressInL3([]int32{int32(addr)}) {"},
 		{Name: "L1 evict handler evicts from L3", File: "proc/mvp8-0/cc.go", Old: "\t\t\t\t_, _ = cc.l1d.EvictCacheLine(req.alignedAddr)\n\t\t\t\tinfo.done()", New: "\t\t\t\t_, _ = cc.l3.EvictCacheLine(req.alignedAddr)\n\t\t\t\tinfo.done()"},
 		{Name: "writer admitted among readers", File: "proc/comp/semaphore.go", Old: "if s.write > 0 || s.read > 0 {", New: "if s.write > 0 {"},
